@@ -4654,6 +4654,11 @@ def from_array(arr, chunksize=50_000, columns=None, meta=None):
 
     from dask_expr.io.io import FromArray
 
+    if isinstance(arr, np.ndarray) and not arr.flags.owndata:
+        # A view is tokenized together with its base, the array it turns into
+        # when the collection is pickled is not: own the data (like from_pandas
+        # does) so that the name is the same wherever the collection is loaded
+        arr = arr.copy(order="K")
     result = FromArray(
         arr,
         chunksize=chunksize,
